@@ -7,6 +7,9 @@ package encryption
 // Sealed layout:  [n] ‖ wrapped DEK (n bytes) ‖ nonce (12) ‖ ciphertext+tag
 //@ pure func wrapLen(n int) int = 8*((n+7)/8) + 8
 
+//@ func NewLocalEncryptionHandler serves C17
+//@   returns (h, err)
+//@   ensures [a-handler-or-an-error] err == nil ==> h != nil
 //@ func (*LocalEncryptionHandler).generateDEK serves C17
 //@   returns (key, err)
 //@   safety
